@@ -41,6 +41,7 @@ namespace
     } g_s;
 
     std::mutex g_log; // order of the log; never held across a library call
+    bool       g_at_enabled = false; // atomic-step events: set in the child that runs an execution, never in the parent
 
     // pick who runs next among the active threads
     void pick_locked()
@@ -339,6 +340,7 @@ namespace
     void run_exec(const Exec& x)
     {
         g_s.rng.seed(static_cast<unsigned>(x.num("sched", 1)));
+        g_at_enabled = true;
         Ev("tmpcfg").i("sched", x.num("sched", 0)).s("mode", "2");
         for (auto& c : x.cmds)
         {
@@ -442,10 +444,64 @@ namespace
     }
 } // namespace
 
-// strong definition of the verification hook (the library provides a weak no-op)
-extern "C" void foonathan_memory_verif_point(int kind, const void*, long)
+namespace
 {
-    yield_point(kind);
+    // ---- atomic steps of the stack list, for the design-level trace specification TempListTrace -----
+    // object numbers: 0 = the list head (the only pointer-sized atomic), h >= 1 = a stack node in the
+    // order this harness first saw it.  The in_use_ flag lies behind the node's next_ pointer, a
+    // temporary_stack starts with its list node.
+    std::vector<const void*> g_nodes;
+    thread_local bool        t_cas_head = false;
+    int node_number(const void* base)
+    {
+        for (std::size_t i = 0; i < g_nodes.size(); ++i)
+            if (g_nodes[i] == base)
+                return static_cast<int>(i) + 1;
+        g_nodes.push_back(base);
+        return static_cast<int>(g_nodes.size());
+    }
+    void log_at(int kind, const void* obj, long arg)
+    {
+        if (!g_at_enabled)
+            return;
+        std::lock_guard<std::mutex> g(g_log);
+        int  o = -1;
+        long w = arg;
+        if (kind >= 1 && kind <= 4)
+        {
+            bool head = arg == static_cast<long>(sizeof(void*));
+            if (kind == 4)
+                t_cas_head = head;
+            o = head ? 0 : node_number(static_cast<const char*>(obj) - sizeof(void*));
+        }
+        else if (kind == 5)
+            o = t_cas_head ? 0 : node_number(static_cast<const char*>(obj) - sizeof(void*));
+        else if (kind == 10 || kind == 11)
+        {
+            o = obj ? node_number(obj) : -1;
+            w = 0;
+        }
+        else
+            w = 0;
+        Ev("at").i("t", t_id).i("k", kind).i("o", o).i("w", w);
+    }
+} // namespace
+
+// strong definition of the verification hook (the library provides a weak no-op)
+extern "C" void foonathan_memory_verif_point(int kind, const void* obj, long arg)
+{
+    if (kind == 5)
+    {
+        // the compare-exchange has just happened: its result belongs directly behind the "about to" event
+        log_at(kind, obj, arg);
+        yield_point(kind);
+    }
+    else
+    {
+        // everything else takes effect right after this point: log when the thread is let through
+        yield_point(kind);
+        log_at(kind, obj, arg);
+    }
 }
 #else
 namespace
